@@ -93,20 +93,24 @@ def encoder(ctx, r, F, T):
     for p in rets:
         cs = [(n(d), (taken == "otherwise") if vals == [0] else taken) for (_, d, taken, vals) in p.conds]
         ret = _unraw(n(p.ret))
-        if cs == want["zero"][0]:
+        # the two guards are mutually exclusive (MAX > 0), so their order does not matter
+        guards_ = [c for c in cs if c[0] in (zero_c, big_c)]
+        if (zero_c, True) in cs and all(c in ((zero_c, True), (big_c, False)) for c in cs):
             got["zero"] = ret == want["zero"][1]
-        elif cs == want["too-large"][0]:
+        elif (big_c, True) in cs and all(c in ((big_c, True), (zero_c, False)) for c in cs):
             got["too-large"] = ret == want["too-large"][1]
         else:
-            arms.append((cs, ret))
-    ctx.ob(r, ("LengthEncoding::new", "zero-arm"), got.get("zero") is True, "len == 0 does not return Some(code 0) as the first decision", cfg=F.key, where=b.where())
+            if sorted(map(repr, guards_)) != sorted(map(repr, [(zero_c, False), (big_c, False)])):
+                got["arms-unguarded"] = True
+            arms.append(([c for c in cs if c[0] not in (zero_c, big_c)], ret))
+    ctx.ob(r, ("LengthEncoding::new", "zero-arm"), got.get("zero") is True, "len == 0 does not return Some(code 0)", cfg=F.key, where=b.where())
     ctx.ob(r, ("LengthEncoding::new", "too-large-arm"), got.get("too-large") is True,
-           "`len > MAX -> None` (strict, MAX=4224281216) is not the second decision", cfg=F.key, where=b.where())
+           "`len > MAX -> None` (strict, MAX=4224281216) is missing", cfg=F.key, where=b.where())
     mx = F.const_int("length::MAX")
     ctx.ob(r, ("LengthEncoding::new", "MAX-constant"), mx == 4224281216 and (T is None or T[-1] == mx), "length::MAX=%r" % mx, cfg=F.key, trivial=True)
     # the two search arms
-    ok = len(arms) == 2
-    msgs = []
+    ok = len(arms) == 2 and not got.get("arms-unguarded")
+    msgs = [] if not got.get("arms-unguarded") else ["a search arm is not guarded by both len != 0 and len <= MAX"]
     seen = set()
     for cs, ret in arms:
         core = [c for c in cs if c[0][0] == "discr"]
